@@ -112,6 +112,17 @@ def check_decode(res, case, data, bucket=None):
     if consumed != used:
         res.violation(f"decode-consumed:{kshape(case)}", f"{case.label}.decode consumed {consumed} bytes, reference {used} (buffer {len(data)})",
                       {"type": case.label, "data": bytes(data)})
+    # "decodes every byte pattern to the value the reference decodes" - on every decode, whatever the caller did with an earlier
+    # result: scramble the returned list / dict in place and decode the same bytes again (no shared or cached result objects)
+    if isinstance(got, (list, dict)) and got:
+        from checks.c06 import scramble
+        scramble(got)
+        st2, got2, _ = lib_decode(case.lib, data)
+        res.ev()
+        if st2 != "ok" or not rc.values_equal(desc, want, got2):
+            res.violation(f"decode-differs-after-caller-modified-earlier-result:{kshape(case)}",
+                          f"{case.label}.decode({bytes(data[:64]).hex()}) after the caller modified the previously returned list/dict = {got2!r:.140} ; reference {want!r:.140}",
+                          {"type": case.label, "data": bytes(data)})
 
 
 def run(ctx):
